@@ -53,7 +53,7 @@ Definition arrayElemTypes : list (Z * Z) :=
     (3911, 3910); (3913, 3912); (3927, 3926) ].
 
 Definition fixedLengths : list (Z * Z) :=
-  [ (16, 1); (18, 1); (21, 2); (23, 4); (20, 8); (26, 4);
+  [ (16, 1); (18, 1); (19, 64); (21, 2); (23, 4); (20, 8); (26, 4);
     (700, 4); (701, 8); (1082, 4); (1114, 8); (1184, 8);
     (27, 6); (28, 4); (29, 4); (790, 8); (1083, 8);
     (829, 6); (774, 8); (2950, 16); (3220, 8);
